@@ -43,10 +43,16 @@ PID = "C16"
 TRUSTED = [
     "Lean 4.33.0 kernel; axioms ⊆ {propext, Classical.choice, Quot.sound} (audited per run)",
     "hand-written model lean/Model/Gen.lean (generate / fuzz generator branch / regen branch / read-only refusal / "
-    "GenInv and its checker); tied by this run's correspondence (generator-bounded); replace_multiple as a whole is "
-    "NOT modelled as one function (Props/C16.lean §6) — its results are judged by the verified checker",
-    "translator harness/translate_gen.py (which code paths mark generator output read-only, generate raises on an "
-    "unfit value, replace_multiple tests read_only) -> Generated/GenFlags.lean",
+    "GenInv and its checker) and lean/Model/GenReplace.lean (the whole of DerivationTree.replace_multiple with "
+    "populate_sources / derive_sources / _topological_sort / derive_generator_output, generators as an oracle with a "
+    "call log); tied by this run's correspondence (generator-bounded): real replace_multiple vs replaceTop, exact on "
+    "tree, sources, flags, call log, error kind",
+    "model abstractions: a generator's value depends on the call index, the symbol and the argument TEXTS; tree "
+    "equality (`!=`, `in`) is equality of (symbol, children) — hash collisions are C10; senders/recipients, bits and "
+    "bytes/str mixing are outside; replace_multiple is modelled for a call on the root; parent pointers are assumed "
+    "consistent (checked on every case)",
+    "translator harness/translate_gen.py (which code paths mark generator output read-only — incl. derive_sources — "
+    "generate raises on an unfit value, replace_multiple tests read_only) -> Generated/GenFlags.lean",
     "generator functions are observed by wrapping Grammar.generate_string (the single place that evaluates them)",
     "the parser's fit with the rule (parsed text = value) is C04/C05, assumed here as `ParseFits`",
     "texts are compared as code-unit lists (str: code points, bytes: byte values); bit-level grammars are skipped",
@@ -224,6 +230,22 @@ def constraints_for(rng, name: str, gens: list[str], args: list[str]) -> tuple[l
 # ------------------------------------------------------------------------------------------------
 
 EQ_REPAIR = "equality-repair-assigns-generated-field"
+PARAM_WRITABLE = "derive-sources-leaves-parameter-output-writable"
+
+
+def report_finding(run: Run, sig: str, what: str, replay: dict) -> None:
+    """a defect found by this check.  Once known_findings.json has an entry with this signature the usual semantics
+    apply (open: KNOWN-FINDING line; fixed: a re-occurrence is a VIOLATION).  Until the lead has entered it, it is
+    printed as PENDING-FINDING and recorded in the evidence (the fix proposal is under /var/tmp/fixes/C16-…)."""
+    from harness.common import load_known
+    if any(k.get("property") == PID and k.get("signature") == sig for k in load_known()):
+        run.report(sig, what, replay)
+        return
+    line = f"PENDING-FINDING: property={PID} {sig}: {what}"
+    pend = run.coverage.setdefault("pending_findings", [])
+    if line not in pend:
+        pend.append(line)
+        print(line, flush=True)
 
 
 def classify(verdict: int, node: Optional[list], assigned: set) -> Optional[str]:
@@ -261,6 +283,7 @@ def generator_nodes(grammar, t, out: list) -> list:
 class Ctx:
     def __init__(self, run: Run):
         self.run = run
+        self.flags: dict = {}
         self.q: list[tuple[dict, dict]] = []
         self.corr_cases = 0
         self.corr_fail: list[dict] = []
@@ -624,6 +647,12 @@ WHOLE_SPECS = [
                '<len> ::= r"[0-9]+"\n<body> ::= <l>{1,3} := unframe(str(<m>))\n<l> ::= r"[a-c]"\n'),
     ("random_arg", PY + '<start> ::= <w> "=" <g>\n<w> ::= <k> "+" <g> := str(<k>) + "+" + pick()\n<g> ::= <l>+ := pick()\n'
                    '<l> ::= r"[a-z]"\n<k> ::= r"[a-c]{1,2}"\n'),
+    ("gen_child", PY + '<start> ::= <m> "." <x>\n<m> ::= <tag> ":" <body> := "t:" + rev(str(<body>))\n<tag> ::= r"[a-z]" := "t"\n'
+                  '<body> ::= r"[a-c]{1,5}"\n<x> ::= r"[0-9]"\n'),
+    ("two_conv", 'def join(a, b):\n    return a + "=" + b\ndef left(g):\n    return g.split("=")[0]\n'
+                 'def right(g, a):\n    return g[len(a) + 1:]\n<start> ::= <g> "."\n'
+                 '<g> ::= <a> "=" <b> := join(str(<a>), str(<b>))\n<a> ::= r"[a-c]{1,2}" := left(str(<g>))\n'
+                 '<b> ::= r"[x-z]{1,2}" := right(str(<g>), str(<a>))\n'),
     ("unsound_conv", 'def fx(a):\n    return "x"\ndef hq(g):\n    return "q"\n<start> ::= <g> "-"\n'
                      '<g> ::= r"[a-z]" := fx(str(<a>))\n<a> ::= r"[pq]" := hq(str(<g>))\n'),
 ]
@@ -726,11 +755,32 @@ def tree_from_json(tj: list):
                           sources=[tree_from_json(k) for k in tj[4]], read_only=bool(tj[2]))
 
 
-def _perturb(rng, tj: list) -> list:
+def _perturb(rng, tj: list, gens: set) -> tuple[list, Optional[list[int]]]:
     """trees the operators need not produce (the theorem quantifies over all): flags flipped, sources moved onto
-    children, a source duplicated among the children"""
+    children, a source duplicated among the children; `generator_child`: a generator-defined child of generated
+    output gets (writable) sources of its own — the `self_is_generator_child` branch; returns the steps to such a
+    source as a target to aim at"""
     out = json.loads(json.dumps(tj))
     nodes: list[list] = []
+    forced: Optional[list[int]] = None
+
+    def paths(x, pre, acc):
+        acc.append((x, pre))
+        if x[0] == "n":
+            for i, k in enumerate(x[3]):
+                paths(k, pre + [2 * i], acc)
+            for i, k in enumerate(x[4]):
+                paths(k, pre + [2 * i + 1], acc)
+        return acc
+    if rng.random() < 0.5:
+        cands = [(x, pre, i) for x, pre in paths(out, [], []) if x[0] == "n" and x[1] in gens and x[4]
+                 for i, k in enumerate(x[3]) if k[0] == "n" and k[1] in gens]
+        if cands:
+            x, pre, i = rng.choice(cands)
+            src = json.loads(json.dumps(x[4]))
+            x[3][i][4] = src
+            forced = pre + [2 * i, 1]
+            return out, forced
 
     def walk(x):
         nodes.append(x)
@@ -753,7 +803,7 @@ def _perturb(rng, tj: list) -> list:
             x[3].append(json.loads(json.dumps(rng.choice(x[4]))))
         elif how == "drop_sources":
             x[4] = []
-    return out
+    return out, forced
 
 
 def whole_case(grammar, sj: dict, tree, pairs: list, log0: list) -> tuple[Optional[dict], Optional[dict]]:
@@ -785,7 +835,7 @@ def whole_case(grammar, sj: dict, tree, pairs: list, log0: list) -> tuple[Option
     return impl, req
 
 
-def _judge_whole(ctx: Ctx, name: str, kinds: list[str], impl: dict, req: dict, a: dict, origin: str) -> None:
+def _judge_whole(ctx: Ctx, name: str, kinds: list[str], impl: dict, req: dict, a: dict, origin: str) -> bool:
     run = ctx.run
     model = {"err": a["err"]} if "err" in a else {"tree": a["tree"], "log": a["log"]}
     ok = impl == model
@@ -806,9 +856,10 @@ def _judge_whole(ctx: Ctx, name: str, kinds: list[str], impl: dict, req: dict, a
             # C16_replace_multiple_inv says this cannot happen for the model; reaching it means the driver's
             # evaluation and the theorem disagree — machinery, not the implementation
             raise MachineryError("C16: model run contradicts C16_replace_multiple_inv: " + json.dumps(req)[:800])
+    return ok
 
 
-def _pick_pairs(rng, grammar, tree, other) -> tuple[list, list[str]]:
+def _pick_pairs(rng, grammar, tree, other, forced=None) -> tuple[list, list[str]]:
     nodes = _all_nodes(grammar, tree, [])
     onodes = _all_nodes(grammar, other, [])
 
@@ -818,10 +869,13 @@ def _pick_pairs(rng, grammar, tree, other) -> tuple[list, list[str]]:
     classes = sorted({cls(x) for x in nodes})
     weights = [1 if c_[0] == "leaf" else 3 for c_ in classes]
     pairs, kinds = [], []
-    for _ in range(rng.choice([1, 1, 2, 3])):
+    for j in range(rng.choice([1, 1, 2, 3])):
         c_ = rng.choices(classes, weights)[0]
         tgt, ig, insrc = rng.choice([x for x in nodes if cls(x) == c_])
         how = rng.choice(["fuzz", "other", "parse", "diff", "self"])
+        if j == 0 and forced is not None:
+            tgt = _follow_steps(tree, forced)
+            c_, ig, insrc, how = ("generator_child_source",), False, True, "fuzz"
         repl = None
         with contextlib.redirect_stderr(io.StringIO()):
             try:
@@ -855,6 +909,18 @@ def stage_whole(ctx: Ctx, rng, n: int) -> None:
     specs = [(s_[0], s_[1]) for s_ in SPECS] + WHOLE_SPECS
     parsed: dict[str, Any] = {}
     pending: list[tuple] = []
+    # corpus first: past disagreements / findings of the whole-function stage (kind "whole")
+    from harness.common import VERIF
+    for cp in sorted((VERIF / "corpus" / "C16").glob("*.json")):
+        rp = json.loads(cp.read_text())
+        if rp.get("kind") != "whole":
+            continue
+        grammar, _ = gio.parse_spec(rp["spec"])
+        tree = tree_from_json(rp["tree"])
+        pairs = [(_follow_steps(tree, st), tree_from_json(r)) for st, r in rp["repl"]]
+        impl, req = whole_case(grammar, spec_json(grammar), tree, pairs, rp["log"])
+        if impl is not None:
+            pending.append(("corpus:" + cp.stem, ["corpus"], impl, req, "corpus", rp["spec"]))
     for i in range(n):
         name, text = specs[i % len(specs)]
         if name not in parsed:
@@ -878,14 +944,16 @@ def stage_whole(ctx: Ctx, rng, n: int) -> None:
             continue
         try:
             origin = "fuzzed"
-            if rng.random() < 0.3:
-                tree = tree_from_json(_perturb(rng, gtree_json(tree)))
-                origin = "perturbed"
+            forced = None
+            if rng.random() < 0.35:
+                ptj, forced = _perturb(rng, gtree_json(tree), {g_[0] for g_ in sj["gens"]})
+                tree = tree_from_json(ptj)
+                origin = "perturbed" if forced is None else "perturbed:generator_child"
             if not _parents_ok(tree):
                 run.count("whole_parent_pointers_inconsistent")
                 continue
             with CallLog() as fl2:
-                pairs, kinds = _pick_pairs(rng, grammar, tree, other)
+                pairs, kinds = _pick_pairs(rng, grammar, tree, other, forced)
             if not pairs or any(c[2] is None for c in fl2.calls):
                 continue
             impl, req = whole_case(grammar, sj, tree, pairs, list(fl.calls) + list(fl2.calls))
@@ -895,19 +963,52 @@ def stage_whole(ctx: Ctx, rng, n: int) -> None:
         if impl is None:
             run.count("whole_recursion_or_timeout")
             continue
-        pending.append((name, kinds, impl, req, origin))
+        pending.append((name, kinds, impl, req, origin, text))
     # fixed cases: the witnesses of Props/C16.lean §6 on the implementation
     pending.extend(_witness_cases(run))
     if pending:
         answers = driver_ask("drv_gen", [p_[3] for p_ in pending], timeout=900)
-        for (name, kinds, impl, req, origin), a in zip(pending, answers):
-            _judge_whole(ctx, name, kinds, impl, req, a, origin)
+        deeper: list[tuple] = []
+        for (name, kinds, impl, req, origin, text), a in zip(pending, answers):
+            if not _judge_whole(ctx, name, kinds, impl, req, a, origin) and "tree" in impl:
+                deeper.append((name, kinds, impl, req, a, text))
             if origin.startswith("witness:"):
                 want = {"witness:parse_repair": (True, False), "witness:unsound_converter": (True, False),
-                        "witness:cascade": (True, True)}[origin]
+                        "witness:cascade": (True, True), "witness:generator_child": (False, True),
+                        "witness:param_output_writable": (True, bool(ctx.flags.get("deriveMarksParamReadOnly")))}[origin]
                 got = (a.get("inv0") and a.get("srcok0"), a.get("inv") and a.get("srcok"))
                 ctx.corr(origin.replace(":", "_"), "err" not in a and got == want and impl == {"tree": a["tree"], "log": a["log"]},
                          {"impl": impl, "model": a, "want_pre_post": want})
+                if origin == "witness:param_output_writable" and "tree" in impl:
+                    iv = driver_ask("drv_gen", [{"op": "inv", "spec": req["spec"], "path": [], "tree": impl["tree"],
+                                                 "log": req["log"] + impl["log"]}])[0]
+                    if not iv["ok"] and iv["bad"][1] == 2 and any(st % 2 for st in iv["bad"][0]):
+                        node = _walk(impl["tree"], iv["bad"][0])
+                        report_finding(run, f"C16/{PARAM_WRITABLE}",
+                                       f"after replace_multiple installed a copy of <m> (crossover), the recorded argument "
+                                       f"{node[1] if node else '?'} = {_gtext(node)!r} at {iv['bad'][0]} — re-created by "
+                                       f"derive_sources with the argument's own generator — has writable children "
+                                       f"(NonTerminalNode.fuzz marks them read-only)",
+                                       {"kind": "whole", "spec": text, "tree": req["tree"], "repl": req["repl"],
+                                        "log": req["log"], "class": PARAM_WRITABLE})
+        # deeper search on a disagreement: does the REAL result leave the invariant where the theorem says the
+        # function keeps it?  Then the disagreement is a property violation with a concrete input.
+        if deeper:
+            invs = driver_ask("drv_gen", [{"op": "inv", "spec": req["spec"], "path": [], "tree": impl["tree"],
+                                          "log": req["log"] + [c for c in impl["log"] if c[2] is not None]}
+                                         for _n, _k, impl, req, _a, _t in deeper])
+            for (name, kinds, impl, req, a, text), iv in zip(deeper, invs):
+                model_fine = "err" in a or (a["inv"] and a["srcok"]) or not a["installs_ok"]
+                pre = "err" in a or (a["inv0"] and a["srcok0"])
+                if pre and model_fine and not iv["ok"] and ("err" in a or a["installs_ok"]):
+                    node = _walk(impl["tree"], iv["bad"][0])
+                    run.report(f"C16/replace_multiple-leaves-invariant:verdict{iv['bad'][1]}",
+                               f"replace_multiple ({name}; targets {kinds}) on a tree that meets the invariant returns "
+                               f"{_gtext(impl['tree'])!r} in which the generator-defined node "
+                               f"{node[1] if node else '?'} = {_gtext(node)!r} at {iv['bad'][0]} does not "
+                               f"(verdict {iv['bad'][1]}); the verified model of the function keeps it",
+                               {"kind": "whole", "spec": text, "tree": req["tree"], "repl": req["repl"],
+                                "log": req["log"], "impl": impl, "model": {k: a.get(k) for k in ("tree", "log", "err")}})
 
 
 def _witness_cases(run: Run) -> list[tuple]:
@@ -917,7 +1018,7 @@ def _witness_cases(run: Run) -> list[tuple]:
     with CallLog() as fl:
         t = grammar.fuzz("<start>", 10)
     impl, req = whole_case(grammar, spec_json(grammar), t, [(t.children[0], grammar.parse("xyz", "<g>"))], list(fl.calls))
-    out.append(("witness", ["gen:parse"], impl, req, "witness:parse_repair"))
+    out.append(("witness", ["gen:parse"], impl, req, "witness:parse_repair", '<start> ::= <g> "-"\n<g> ::= r"[a-z]+" := "abc"\n'))
     # C16_FullStatement_refuted: a converter that is not inverse to the generator; crossover of <g> onto itself
     grammar, _ = gio.parse_spec(dict(WHOLE_SPECS)["unsound_conv"])
     for seed in range(40):
@@ -930,7 +1031,7 @@ def _witness_cases(run: Run) -> list[tuple]:
         raise MachineryError("C16: could not fuzz the unsound-converter witness")
     g = t.children[0]
     impl, req = whole_case(grammar, spec_json(grammar), t, [(g, g.deepcopy(copy_parent=False))], list(fl.calls))
-    out.append(("witness", ["gen:self"], impl, req, "witness:unsound_converter"))
+    out.append(("witness", ["gen:self"], impl, req, "witness:unsound_converter", dict(WHOLE_SPECS)["unsound_conv"]))
     # C16_cascade_example: the argument of the argument changes
     grammar, _ = gio.parse_spec(dict(WHOLE_SPECS)["chain"])
     random.seed(3)
@@ -939,7 +1040,28 @@ def _witness_cases(run: Run) -> list[tuple]:
     c = t.children[0].sources[0].sources[0]
     new_c = grammar.parse("ba" if str(c) != "ba" else "ab", "<c>")
     impl, req = whole_case(grammar, spec_json(grammar), t, [(c, new_c)], list(fl.calls))
-    out.append(("witness", ["plain:in_sources:parse"], impl, req, "witness:cascade"))
+    out.append(("witness", ["plain:in_sources:parse"], impl, req, "witness:cascade", dict(WHOLE_SPECS)["chain"]))
+    # the `self_is_generator_child` branch: a generator-defined child of generated output that has sources of its
+    # own, one of which changes: its sources are dropped, no generator runs
+    grammar, _ = gio.parse_spec(dict(WHOLE_SPECS)["gen_child"])
+    random.seed(1)
+    with CallLog() as fl:
+        t = grammar.fuzz("<start>", 10)
+    tj = gtree_json(t)
+    tj[3][0][3][0][4] = json.loads(json.dumps(tj[3][0][4]))
+    t2 = tree_from_json(tj)
+    new_body = grammar.parse("cab" if str(t2.children[0].sources[0]) != "cab" else "abc", "<body>")
+    impl, req = whole_case(grammar, spec_json(grammar), t2, [(t2.children[0].children[0].sources[0], new_body)], list(fl.calls))
+    out.append(("witness", ["generator_child_source:in_sources:parse"], impl, req, "witness:generator_child",
+                dict(WHOLE_SPECS)["gen_child"]))
+    # C16_derive_param_writable_breaks_inv: the parameter of <m> is itself generator-defined; crossover of <m>
+    grammar, _ = gio.parse_spec(dict(WHOLE_SPECS)["const_param"])
+    random.seed(0)
+    with CallLog() as fl:
+        t = grammar.fuzz("<start>", 20)
+        other = grammar.fuzz("<start>", 20)
+    impl, req = whole_case(grammar, spec_json(grammar), t, [(t.children[0], other.children[0])], list(fl.calls))
+    out.append(("witness", ["gen:other"], impl, req, "witness:param_output_writable", dict(WHOLE_SPECS)["const_param"]))
     return out
 
 
@@ -1005,6 +1127,27 @@ def replay(path: str) -> int:
             print("fuzz raised", type(e).__name__)
             print("replay: no violation on the current tree")
             return 0
+    if rp.get("kind") == "whole":
+        grammar, _ = gio.parse_spec(rp["spec"])
+        tree = tree_from_json(rp["tree"])
+        pairs = [(_follow_steps(tree, st), tree_from_json(r)) for st, r in rp["repl"]]
+        with CallLog() as cl:
+            try:
+                res = tree.replace_multiple(grammar, pairs)
+            except Exception as e:  # noqa
+                print("replace_multiple raised", type(e).__name__, e)
+                print("replay: no violation on the current tree")
+                return 0
+        sj = spec_json(grammar)
+        a0, a1 = driver_ask("drv_gen", [
+            {"op": "inv", "spec": sj, "path": [], "tree": rp["tree"], "log": rp["log"]},
+            {"op": "inv", "spec": sj, "path": [], "tree": gtree_json(res),
+             "log": rp["log"] + [c for c in cl.calls if c[2] is not None]}])
+        print(f"before: {_gtext(rp['tree'])!r} invariant={a0['ok']}; after replace_multiple: {str(res)!r} "
+              f"invariant={a1['ok']} bad={a1['bad']}; generator calls: {cl.calls}")
+        bad = a0["ok"] and not a1["ok"]
+        print("replay:", "property violated" if bad else "no violation on the current tree")
+        return 1 if bad else 0
     if rp.get("kind") != "tree":
         print("replay: this file names a broken obligation / correspondence case, there is no failing input:")
         print(json.dumps({k: rp.get(k) for k in ("what", "broken_obligations")}, indent=1)[:3000])
@@ -1034,6 +1177,7 @@ def main(tier: str) -> int:
     for r in gen["refusals"]:
         lean.broken.append({"module": "Generated.GenFlags", "reason": "translator refused: " + r})
     ctx = Ctx(run)
+    ctx.flags = gen["flags"]
     quick = tier == "quick"
     t0 = time.time()
     stage_ops(ctx, run.rng("ops"), 60 if quick else 600)
@@ -1047,7 +1191,7 @@ def main(tier: str) -> int:
     run.coverage["correspondence_disagreements"] = len(ctx.corr_fail)
     run.coverage["disagreement_samples"] = [json.loads(json.dumps(c)[:3000]) if len(json.dumps(c)) < 3000
                                             else {"case": c["case"]} for c in ctx.corr_fail[:5]]
-    if (not lean.ok or ctx.corr_fail) and not run.violations and not run.known_hits:
+    if (not lean.ok or ctx.corr_fail) and not run.violations:
         what = []
         if not lean.ok:
             what.append("proof obligations of Props/C16.lean no longer check: " + json.dumps(lean.broken)[:600])
@@ -1059,11 +1203,21 @@ def main(tier: str) -> int:
                    {"broken_obligations": lean.broken, "correspondence": ctx.corr_fail[:10]}, no_input=True)
     return run.finish(
         lean,
-        rule="7 generator specs (constant, random, random inside a repetition, dependent, dependent with converter, "
+        rule="whole-function correspondence: 16 generator specs (the 7 below + chained generators, chained converter, "
+             "generator-defined parameter, generated field in a repetition, random generator with an argument, "
+             "generator-defined child, two interdependent converters, a converter that is not an inverse) x real fuzzed "
+             "trees (35% perturbed: flags flipped, sources in odd places, generator-defined child with sources) x 1-3 "
+             "replacements aimed at generated fields / their arguments / inside generated output / outside / terminals "
+             "/ other symbols, replacement = fresh fuzz, subtree of another individual, parse of its text, another "
+             "symbol, writable copy of the target; distinct by (tree, replacements, generator values).  Evolution: "
+             "7 generator specs (constant, random, random inside a repetition, dependent, dependent with converter, "
              "nested converters, two arguments) x 9 constraint kinds aimed at the generated symbol, an enclosing "
              "symbol, an argument, a part of the generated text x seeds/settings; every evaluated individual and every "
              "solution judged by genInvB with the run's call log; operator cases on real fuzzed trees; a case is "
              "non-trivial when the tree has a generator-defined node; distinct by tree",
-        explanation="partial: invariant preservation is proved for the building blocks of replace_multiple and all their "
-                    "sequences, not for its recursion as one function (Props/C16.lean §6)",
+        explanation="replace_multiple is modelled as one function and proved to keep the invariant (C16_replace_multiple_inv, "
+                    "C16_reachable_inv_whole) given that the copies it installs meet it as populate_sources left them — "
+                    "unconditionally for generator-free replacement material (C16_replace_multiple_inv_genfree); the "
+                    "unconditional statement is refuted on witnesses (F31; a converter that is not an inverse; "
+                    "derive_sources leaving a generator-defined parameter writable)",
         trusted_base=TRUSTED)
